@@ -15,6 +15,13 @@ pub trait KKTSolver<T: FloatT>: HasLinearSolverInfo {
     ) -> bool;
     fn update_P(&mut self, P: &CscMatrix<T>);
     fn update_A(&mut self, A: &CscMatrix<T>);
+
+    /// verification hook (C08): read-only copy of the KKT values, the data maps and the
+    /// LDL engine's permuted copy.  `None` for solvers that do not expose them.
+    #[cfg(feature = "verif-hooks")]
+    fn verif_c08_kkt_state(&self) -> Option<crate::verif_hooks::c08::KktState<T>> {
+        None
+    }
 }
 
 pub trait HasLinearSolverInfo {
